@@ -5,8 +5,8 @@
 # passes without it.  On success stores it as /verif/seeded/<PROP><x>/.
 set -u
 P=$1; X=$2; SRC=$3; DEMOFLAGS=${4:-}
-WT=/tmp/mutcheck
-LOG=/tmp/mutcheck_$P$X.log
+WT=${WT:-/tmp/mutcheck}
+LOG=${WT:-/tmp/mutcheck}_$P$X.log
 if [ ! -d $WT ]; then git -C /repo worktree add --detach $WT HEAD >/dev/null 2>&1 || exit 2; fi
 cd $WT && git checkout -q --detach $(git -C /repo rev-parse HEAD) && git checkout -q -- . && git clean -fdq -e target && cp /repo/Cargo.lock .
 git apply $SRC/$X.patch.diff || { echo "$P$X: patch does not apply"; exit 1; }
